@@ -356,7 +356,9 @@ fn main() {
     {
       use ast_grep_core::ops::Op;
       let some: Vec<&(String, Pattern<SupportLang>)> = pats.iter().filter(|(t, _)| t.len() <= 12).step_by((pats.len() / 12).max(1)).take(12).collect();
-      let kinds: Vec<&str> = la.kinds.to_vec();
+      // plus the built-in ERROR kind (its id is shared by every grammar and is special-cased in kind comparisons)
+      let mut kinds: Vec<&str> = la.kinds.to_vec();
+      kinds.push("ERROR");
       let run = |class: &str, desc: Value, m: &dyn Fn(&Case, &str, &AstGrep<D>)| {
         let c = Case { rep: &rep, st: &st, lang, class: format!("ops:{class}"), desc };
         for (src, g) in &ts_small {
@@ -384,7 +386,7 @@ fn main() {
       }
     }
     // ---- kinds
-    for k in la.kinds {
+    for k in la.kinds.iter().copied().chain(["ERROR"]) {
       let m = KindMatcher::new(k, spec.lang);
       let c = Case { rep: &rep, st: &st, lang, class: "kind".into(), desc: json!({"kind": k}) };
       ts.par_iter().for_each(|(src, g)| check_matcher(&c, &m, src, g, true));
